@@ -25,6 +25,13 @@ def named_bool(name):
     return d[name]
 
 
+def named_int(name):
+    d = ghost().setdefault("named", {})
+    if name not in d:
+        d[name] = sym_int(name)
+    return d[name]
+
+
 def named_bytes(name):
     d = ghost().setdefault("named", {})
     if name not in d:
@@ -714,3 +721,128 @@ def h_up_chain(depth):
     for c in G["calls"]:
         recording = recording or c[1] in ("check_next_arg", "reassign_arguments", "addchild", "complete_cb")
     prove(not recording, "P5.going-up-offers-nothing-again")
+
+
+# ---------------------------------------------------------------- P8: the driver loop of Parser.parse over the step contract
+
+class DriverLexer:
+    """lexer stub for the driver: scan() hands out the prepared token list; position queries answer symbolically"""
+
+    def __init__(self, tokens):
+        self.tokens = tokens
+        self.pos = sym_int("lexer_pos_at_failure")
+
+    def scan(self, text):
+        return self.tokens
+
+    def curlineno(self):
+        return named_int("line_at_failure")
+
+    def curcolno(self):
+        return named_int("column_at_failure")
+
+
+def k_command_step(ip, args, kwargs):
+    """cut of Parser.__command for the driver proof (its own contract is P6): logs the token; then either raises one of the
+    funnelled exception kinds, or answers True / False after changing the parser's state arbitrarily (expected set, bracket
+    stack, current command) -- the driver must cope with every such behaviour"""
+    self, ttype, tvalue = args[0], args[1], args[2]
+    G = core.cur().ghost
+    G["steps"].append((ttype, tvalue))
+    k = len(G["steps"])
+    if core.branch(sym.fresh_bool("step%d_raises_ParseError" % k).t):
+        G["raised"] = ("ParseError", "step %d refused" % k)
+        raise sparser.ParseError("step %d refused" % k)
+    if core.branch(sym.fresh_bool("step%d_raises_ExtensionNotLoaded" % k).t):
+        G["raised"] = ("ExtensionNotLoaded", "extension 'x%d' not loaded" % k)
+        raise commands.ExtensionNotLoaded("x%d" % k)
+    if core.branch(sym.fresh_bool("step%d_raises_UnicodeDecodeError" % k).t):
+        G["raised"] = ("UnicodeDecodeError", None)
+        raise UnicodeDecodeError("utf-8", b"\xff", 0, 1, "invalid start byte")
+    if not core.branch(sym.fresh_bool("step%d_accepts" % k).t):
+        G["refused_at"] = k
+        return False
+    # arbitrary new state
+    if core.branch(sym.fresh_bool("step%d_sets_expected" % k).t):
+        setattr(self, "_Parser__expected", ("expected-after-step-%d" % k,))
+    else:
+        setattr(self, "_Parser__expected", None)
+    if core.branch(sym.fresh_bool("step%d_leaves_a_bracket_open" % k).t):
+        setattr(self, "_Parser__expected_brackets", [("right_cbracket", b"}")])
+    else:
+        setattr(self, "_Parser__expected_brackets", [])
+    if core.branch(sym.fresh_bool("step%d_leaves_a_command_open" % k).t):
+        setattr(self, "_Parser__curcommand", ip.call(StubCommand, ["open-command"], {}))
+    else:
+        setattr(self, "_Parser__curcommand", None)
+    return True
+
+
+def setup_driver(ip, unit):
+    ip.name_contracts[("sievelib.parser", "Parser.__command")] = k_command_step
+
+
+def h_parse_driver(kinds):
+    """Parser.parse as a driver over the step function, for a token list of the given kinds ('token' | 'hash' | 'bracket'):
+    it never raises; it returns True exactly when every token was accepted and nothing is left open; on failure `error` is
+    `line N: <text of what was raised or refused>` and error_pos a triple of integers; comments never reach the step function
+    and every other token reaches it once, in order, until the first failure"""
+    p = sparser.Parser()
+    G = ghost()
+    G["steps"] = []
+    toks = []
+    expected_steps = []
+    comments = []
+    for i in range(len(kinds)):
+        v = sym_bytes("token%d" % i)
+        if kinds[i] == "hash":
+            toks.append(("hash_comment", v))
+            comments.append(v)
+        elif kinds[i] == "bracket":
+            toks.append(("bracket_comment", v))
+        else:
+            toks.append(("identifier", v))
+            expected_steps.append(("identifier", v))
+    p.lexer = DriverLexer(toks)
+    kind = "return"
+    r = None
+    try:
+        r = p.parse(b"the text is what the lexer stub makes of it")
+    except Exception as e:
+        kind = "raised"
+        note("exception", type(e).__name__)
+    prove(kind == "return", "P8.parse-never-raises")
+    if kind != "return":
+        return
+    prove(r is True or r is False, "P8.verdict-is-a-boolean")
+    steps = G["steps"]
+    in_order = len(steps) <= len(expected_steps)
+    if in_order:
+        for i in range(len(steps)):
+            in_order = in_order and steps[i][0] == expected_steps[i][0] and steps[i][1] == expected_steps[i][1]
+    prove(in_order, "P8.tokens-reach-the-step-function-once-in-order-comments-never")
+    failed = G.get("raised") is not None or G.get("refused_at") is not None
+    if r is True:
+        prove(not failed and len(steps) == len(expected_steps), "P8.True-only-when-every-token-was-accepted")
+        prove(len(p._Parser__expected_brackets) == 0 and p._Parser__expected is None, "P8.True-only-when-nothing-is-left-open")
+        ok = len(p.hash_comments) == len(comments)
+        if ok:
+            for i in range(len(comments)):
+                ok = ok and p.hash_comments[i] == comments[i].strip()
+        prove(ok, "P8.comments-collected-stripped-in-order")
+    else:
+        prove(isinstance(p.error, str) and p.error.startswith("line "), "P8.failure-gives-line-N-message")
+        ep = p.error_pos
+        prove(isinstance(ep, tuple) and len(ep) == 3, "P8.failure-gives-a-position-triple")
+        if isinstance(ep, tuple) and len(ep) == 3:
+            # C18: the position reported is the lexer's position at the moment of the failure; the length that of the current token
+            prove(ep[0] == named_int("line_at_failure") and ep[1] == named_int("column_at_failure"), "P8.position-is-the-lexers-at-the-failure")
+            prove(p.error.startswith("line %d: " % named_int("line_at_failure")), "P8.message-carries-the-same-line")
+            if failed:
+                prove(ep[2] == len(steps[len(steps) - 1][1]), "P8.length-is-that-of-the-token-that-failed")
+        raised = G.get("raised")
+        if raised is not None and raised[1] is not None:
+            prove(p.error.endswith(": " + raised[1]), "P8.message-is-the-text-of-the-exception-raised-below")
+        if not failed and len(steps) == len(expected_steps):
+            # every token accepted, yet False: a bracket or a command was left open, or a token was still expected
+            prove(len(p._Parser__expected_brackets) > 0 or p._Parser__expected is not None, "P8.False-after-all-accepted-only-when-something-is-left-open")
